@@ -156,7 +156,7 @@ def main():
                           dict(payload, text=res["text"][:600], reference_text=ref["text"][:600]))
         if res.get("shared"):
             run.violation(f"shared:{req}:{hs}:{hseed_}",
-                          f"repeated psi / norm_factor requests share contracted indices {res['shared'][:2]}", payload)
+                          f"repeated psi / norm_factor / intermediate expansion requests share contracted indices {res['shared'][:2]}", payload)
         if not res.get("identical"):
             run.violation(f"identity:{req}:{hs}:{hseed_}", "repeated index request returned another object", payload)
         if any(isinstance(h, str) for h in res.get("history") or []):
